@@ -729,9 +729,11 @@ impl<'a> Scenario<'a> {
             _ => (self.rng.range(14, 21) as u32, false, 1),
         };
         self.out.count("connect.attempt");
+        let hs = format!("hs {} {} {}", if legacy { "legacy" } else { "new" }, major, minor);
         match self.sim.connect(minor, legacy, major) {
             Ok(id) => {
                 let v = self.sim.conns[id].version;
+                self.out.emit(&hs, &format!("ok {}", v));
                 // C12 handshake oracle
                 let expect = if legacy { if minor == 14 { Some(14) } else { None } } else if major == 1 && minor >= 14 { Some(minor.min(20)) } else { None };
                 if expect != Some(v) {
@@ -742,6 +744,7 @@ impl<'a> Scenario<'a> {
                 self.out.count(&format!("connect.ok.v{}", v));
             }
             Err(e) => {
+                self.out.emit(&hs, if e.contains("incompatible") { "incompatible" } else { "error" });
                 let expect_fail = if legacy { minor != 14 } else { !(major == 1 && minor >= 14) };
                 if !expect_fail || !e.contains("incompatible") {
                     self.out.fail("C12", &format!("handshake {}{}.{} failed: {}", if legacy { "legacy " } else { "" }, major, minor, e), "");
@@ -1221,7 +1224,7 @@ impl<'a> Scenario<'a> {
         let mut handle = self.sim.handle.clone();
         let st = self.sim.run_aux(async move { handle.take_statistics().await }, false);
         if let Some(Ok(st)) = st {
-            let line = format!("conns={} objs={} svcs={} chans={} lsn={} sent={} recv={}", st.num_connections(), st.num_objects(), st.num_services(), st.num_channels(), st.num_bus_listeners(), st.messages_sent(), st.messages_received());
+            let line = format!("conns={} objs={} svcs={} chans={} lsn={} sent={} recv={} gauges=ok", st.num_connections(), st.num_objects(), st.num_services(), st.num_channels(), st.num_bus_listeners(), st.messages_sent(), st.messages_received());
             self.out.emit("bstats", &line);
         }
     }
@@ -1273,7 +1276,7 @@ impl<'a> Scenario<'a> {
             let mut handle = self.sim.handle.clone();
             let st = self.sim.run_aux(async move { handle.take_statistics().await }, false);
             if let Some(Ok(st)) = st {
-                let line = format!("conns={} objs={} svcs={} chans={} lsn={} sent={} recv={}", st.num_connections(), st.num_objects(), st.num_services(), st.num_channels(), st.num_bus_listeners(), st.messages_sent(), st.messages_received());
+                let line = format!("conns={} objs={} svcs={} chans={} lsn={} sent={} recv={} gauges=ok", st.num_connections(), st.num_objects(), st.num_services(), st.num_channels(), st.num_bus_listeners(), st.messages_sent(), st.messages_received());
                 if st.num_connections() != 0 || st.num_objects() != 0 || st.num_services() != 0 || st.num_channels() != 0 || st.num_bus_listeners() != 0 {
                     let t = self.trace.join(" / ");
                     self.out.fail("C09", &format!("all connections are gone but the statistics say {}", line), &t);
